@@ -352,7 +352,14 @@ func opTab(a map[string]interface{}) (string, string, interface{}) {
 		}
 		out = append(out, J{"hdr": r.HeaderSymbols, "names": r.HeaderNames, "rows": rows, "out": r.Output, "e": r.Error.ErrorCode})
 	}
-	return "ok", "", J{"res": out, "sep": tabular.CellSeparator}
+	obs := J{"res": out, "sep": tabular.CellSeparator}
+	if aBool(a, "withparse") {
+		// the implementation's own parse of the cleaned text, for oracles that must not blame
+		// the exporter for a parser defect
+		_, _, po := opParse(map[string]interface{}{"text": tabular.CleanInput(aStr(a, "text"), tabular.CellSeparator)})
+		obs["parse"] = po
+	}
+	return "ok", "", obs
 }
 
 func setVisOpts(a map[string]interface{}) {
